@@ -47,6 +47,8 @@ pub fn scenarios() -> Vec<Scenario> {
         Scenario { name: "compute removing from a list bin", mode: IDENTITY, cap: 16, keys: vec![1, 33, 65], op: |m| { let g = m.guard(); m.compute_if_present(&33, |_, _| None, &g); } },
         Scenario { name: "compute replacing in a tree bin", mode: CONSTANT, cap: 64, keys: s_keys(0..12), op: |m| { let g = m.guard(); m.compute_if_present(&4, |_, v| Some(v + 1), &g); } },
         Scenario { name: "compute removing from a tree bin (down to untreeify)", mode: CONSTANT, cap: 64, keys: s_keys(0..9), op: |m| { let g = m.guard(); for k in 2..8 { m.compute_if_present(&k, |_, _| None, &g); } } },
+        Scenario { name: "remove from a tree bin of 100 keys with rebalancing", mode: CONSTANT, cap: 64, keys: s_keys(0..100), op: |m| { let g = m.guard(); m.remove(&37, &g); m.remove(&99, &g); } },
+        Scenario { name: "insert into a tree bin of 100 keys", mode: SAMEBIN, cap: 64, keys: s_keys(0..100), op: |m| { let g = m.guard(); m.insert(100, 700, &g); m.insert(101, 700, &g); } },
         Scenario { name: "clear over list and tree bins", mode: SPLITTING, cap: 128, keys: s_keys(0..30), op: |m| { let g = m.guard(); m.clear(&g); } },
         Scenario { name: "reserve moving list bins and a tree bin (64 -> 256)", mode: SPLITTING, cap: 64, keys: s_keys(0..30), op: |m| { let g = m.guard(); m.reserve(150, &g); } },
         Scenario { name: "reserve moving a tree bin that stays whole", mode: SAMEBIN, cap: 64, keys: s_keys(0..14), op: |m| { let g = m.guard(); m.reserve(100, &g); } },
@@ -273,12 +275,12 @@ fn experiment(s: &Scenario, j: u64, post: &Model) -> Verdict {
 }
 
 /// A reader holds the tree read lock, a writer is parked waiting for it; other reads still run.
-fn third_party(out: &mut Outcome) -> Result<(), String> {
+fn third_party(out: &mut Outcome, nkeys: u64) -> Result<(), String> {
     let m: Arc<UMap> = Arc::new(HashMap::with_capacity_and_hasher(64, HB::new(CONSTANT)));
     let mut pre = Model::new();
     {
         let g = m.guard();
-        for k in 0..14 {
+        for k in 0..nkeys {
             m.insert(k, 1000 + k, &g);
             pre.insert(k, 1000 + k);
         }
@@ -406,12 +408,18 @@ pub fn run(ctx: &Ctx) -> Outcome {
         }
     }
     if ctx.shard == 0 && only.is_none() {
-        out.evaluations += 1;
-        out.add("third_party_runs", 1);
-        match third_party(&mut out) {
-            Ok(()) => {}
-            Err(e) if e.starts_with("INCONCLUSIVE") => out.inconclusive.push(e),
-            Err(e) => out.violate("c12/third-party", e, Json::obj().with("check", Json::s("c12")).with("part", Json::s("third-party"))),
+        // (a tree bin of 14 keys, and one much longer than any bound a fallback scan might have)
+        for nkeys in [14u64, 100, 300] {
+            out.evaluations += 1;
+            out.add("third_party_runs", 1);
+            match third_party(&mut out, nkeys) {
+                Ok(()) => {}
+                Err(e) if e.starts_with("INCONCLUSIVE") => out.inconclusive.push(e),
+                Err(e) => {
+                    out.violate("c12/third-party", format!("{e} [tree bin of {nkeys} keys]"), Json::obj().with("check", Json::s("c12")).with("part", Json::s("third-party")));
+                    break;
+                }
+            }
         }
     }
     out.sample(Json::s("scenario 'remove from a tree bin with rebalancing': writer suspended at step 57 (inside the root write lock), 14 keys x {get, get_key_value, contains_key} + iter + keys + values + len + == on another thread"));
